@@ -460,7 +460,7 @@ pub fn run(cfg: &RunCfg) -> Report {
     ];
     runner::replay_pinned(&mut rep, cfg, &replay);
     runner::replay_regress(&mut rep, cfg, &replay);
-    explore(&mut rep, cfg, "streams", cfg.cases(6_000, 120_000), case_strategy, |c| run_case(cfg, c));
+    explore(&mut rep, cfg, "streams", cfg.cases(40_000, 800_000), case_strategy, |c| run_case(cfg, c));
     rep
 }
 
